@@ -22,11 +22,16 @@ import tr_tables
 MANIFEST = {
     "text": "Kernel-evaluated table theorem spec_refines (every value rule / required set / co-constraint of the class tables "
             "regenerated from /repo is no stricter than the frozen specification's, slot by slot; failures are named and "
-            "turned into boundary inputs) over the same interpreter model as C02; spec_complete stated, partial.",
+            "turned into boundary inputs) over the same interpreter model as C02; per-kind completeness of clean "
+            "(clean_complete_partial[_wide]) and the object-level theorem spec_complete_partial for arbitrary tables: a "
+            "spec-valid object is accepted by the strict constructor, every given property stored with the same value "
+            "(timestamps as instants), anything else stored is a defaulted property; coverage predicates class_complete / "
+            "input_complete (100 of 123 generated classes, kernel-computed lib_complete in the evidence; not covered: nested "
+            "objects / extensions / granular markings in the input, positional / indicator / marking-definition __init__ forms).",
     "design_ref": "DESIGN.md 6/C03, Appendix A.7",
     "note": "Trusted: Coq kernel + vm_compute, tr_tables, frozen spec tables /verif/spec, Spec/StixValid.v (used to select the "
-            "spec-valid generated objects), the preservation comparison in this file. The interpreter-level completeness "
-            "theorem is not yet proved (level_note: partial); the oracle + correspondence carry the property meanwhile.",
+            "spec-valid generated objects), the preservation comparison in this file. Partial theorem (explicit coverage "
+            "predicates); the oracle + correspondence carry the uncovered part (bundles, containers, nested objects).",
     "technique": "Coq: kernel-evaluated refinement of generated tables + shared interpreter model; oracle on real parse/serialize",
 }
 
@@ -116,7 +121,10 @@ def boundary_fill(g, cid, o, rng):
             continue
         t = k["k"]
         if t == "int":
-            cands = [v for v in (k["min"], k["max"], 0) if v is not None and (k["min"] is None or v >= k["min"]) and (k["max"] is None or v <= k["max"])]
+            # 64-bit integers in STIX 2.0, +-(2**53 - 1) in 2.1: the ends and the first values a double cannot hold
+            big = [2 ** 53 + 1, 2 ** 53 - 1, 2 ** 63 - 1, -(2 ** 63), 9007199254740993] if c["ver"] == "2.0" else [2 ** 53 - 1, -(2 ** 53 - 1)]
+            cands = [v for v in [k["min"], k["max"], 0] + big
+                     if v is not None and (k["min"] is None or v >= k["min"]) and (k["max"] is None or v <= k["max"])]
             if cands:
                 x[n] = rng.choice(cands)
         elif t == "float":
@@ -314,6 +322,32 @@ def gen_candidates(run, g, per_class):
     return cands
 
 
+def extension_orders(g, rng):
+    """2.1 objects with two or three extensions of mixed kinds (unregistered toplevel-property-extension with its
+    extra top-level properties, unregistered property-extension, a registered extension) in every order."""
+    import itertools
+    out = []
+    for cid in ("2.1/Identity", "2.1/Malware", "2.1/File", "2.1/Note"):
+        base = g.obj(cid, 0, {"safe": True}, optional_p=0.0)
+        base.pop("extensions", None)
+        top = ("extension-definition--" + g.uuid(), {"extension_type": "toplevel-property-extension"})
+        prop = ("extension-definition--" + g.uuid(), {"extension_type": "property-extension", "rating": 3, "note": "x"})
+        entries = [top, prop]
+        if cid == "2.1/File":
+            entries.append(("ntfs-ext", {"sid": "S-1-5-21"}))
+        else:
+            entries.append(("extension-definition--" + g.uuid(), {"extension_type": "property-extension", "score": 1}))
+        for n in (2, 3):
+            for combo in itertools.permutations(entries, n):
+                x = dict(base)
+                x["extensions"] = {k: v for k, v in combo}
+                if any(k == top[0] for k, _ in combo):
+                    x["rank"] = 5
+                    x["toxicity"] = "high"
+                out.append((cid, x, "extension-orders"))
+    return out
+
+
 def fraction_sweep(g, rng, n):
     """Small 2.1 objects whose timestamps all carry six random fraction digits (the instants must come back exactly)."""
     out = []
@@ -347,6 +381,20 @@ def dig(j, path):
 ACCEPT_HEADER = ("From Coq Require Import List String.\n"
                  "From V Require Import Base.UString Model.SchemaTypes Spec.SchemaRefine Gen.Tables Gen.SpecTables.\n"
                  "Import ListNotations. Open Scope string_scope.\n")
+
+
+COVER_HEADER = ("From Coq Require Import List String.\n"
+                "From V Require Import Base.UString Model.SchemaTypes Gen.Tables Proofs.SchemaCompC03.\n"
+                "Import ListNotations. Open Scope string_scope.\n"
+                "Definition names (l : list ustring) : string := fold_right (fun c acc => append (show_ustr c) (append \" \" acc)) EmptyString l.\n")
+
+
+def coverage_of_theorem():
+    lines = sc.sharded_eval("c03c", COVER_HEADER, [
+        "append (show_nat (List.length lib_complete)) (append \"|\" (show_nat (List.length (wclasses lib))))",
+        "names lib_incomplete"])
+    a, n = (int(x) for x in lines[0].split("|"))
+    return {"classes": n, "covered_by_spec_complete_partial": a, "not_covered": common.ustr_unescape(lines[1]).split()}
 
 
 def accept_failures():
@@ -495,6 +543,7 @@ def check(run):
     defaults = default_pairs(g.spec)
     cands = gen_candidates(run, g, 3 if quick else 16)
     cands += fraction_sweep(g, run.rng, 160 if quick else 1500)
+    cands += extension_orders(g, run.rng)
     cands += witness_candidates()
     failures, live = [], None
     if gen_ok:
@@ -504,13 +553,26 @@ def check(run):
         except RuntimeError as e:
             run.broken.append(Broken("obligation", "accept_failures spec lib (evaluation)", {"error": str(e)[-1200:]}))
     run.coverage["refinement_failures"] = ["|".join(f) for f in failures]
+    if gen_ok:
+        try:
+            run.coverage["theorem_class_coverage"] = coverage_of_theorem()
+        except RuntimeError as e:
+            run.notes.append("coverage lists could not be evaluated: %s" % str(e)[-300:])
     fcands = failure_candidates(failures, live, g, run.rng) if failures else []
     allc = [(cid, o, how, None) for cid, o, how in cands] + fcands
+    # state kept between calls: the same UUID text under both specification versions, both orders, one process
+    seqs = stixgen.uuid_reuse_sequences(g, 10 if quick else 60)
+    seq_at = {}
+    for k, seq in enumerate(seqs):
+        for step, (cid, o) in enumerate(seq):
+            seq_at[(k, step)] = len(allc)
+            allc.append((cid, o, "sequence", None))
     # which candidates are valid per the frozen specification (kernel-evaluated)
     pats = sc.pattern_lists([{"data": o} for _, o, _, _ in allc])
     verdict = sc.spec_valid_lines([(cid, o) for cid, o, _, _ in allc], pats, tag="c03v")
     valid = [(cid, o, how, f) for (cid, o, how, f), v in zip(allc, verdict)
-             if v == "true" and (g.classes[cid]["ver"] != "2.0" or g.classes[cid]["family"] == "sco" or refs_well_typed(g, cid, o))]
+             if v == "true" and how != "sequence"
+             and (g.classes[cid]["ver"] != "2.0" or g.classes[cid]["family"] == "sco" or refs_well_typed(g, cid, o))]
     run.coverage["candidates"] = len(allc)
     run.coverage["spec_valid_candidates"] = len(valid)
     hist = {}
@@ -524,6 +586,15 @@ def check(run):
             case["meta"] = {"origin": how, "ckind": ctx, "cid": cid}
             cases.append(case)
             owner.append((n, ctx, path))
+    for k, seq in enumerate(seqs):
+        for step, (cid, o) in enumerate(seq):
+            cases.append({"op": "parse", "cid": cid, "data": o, "allow": False, "interop": False, "seq": k,
+                          "meta": {"origin": "sequence", "ckind": "sequence", "cid": cid, "step": step}})
+            if verdict[seq_at[(k, step)]] == "true":
+                valid.append((cid, o, "sequence", None))
+                owner.append((len(valid) - 1, "sequence", []))
+            else:
+                owner.append(None)       # runs (it sets the state) but is not a specification-valid object
     impl, extra = sc.run_impl_cases(cases)
     for c, r in zip(cases, impl):
         run.count({k: c[k] for k in ("op", "cid", "data")}, nontrivial=True)
@@ -542,6 +613,8 @@ def check(run):
     explained = set()
     ctxhist = {}
     for i, (c, line) in enumerate(zip(cases, impl)):
+        if owner[i] is None:
+            continue
         n, ctx, path = owner[i]
         cid, o, how, f = valid[n]
         ctxhist[ctx] = ctxhist.get(ctx, 0) + 1
@@ -563,6 +636,10 @@ def check(run):
         fid, _ = classify(loss, cid, dig(c["data"], path), how)
         rep = {"case": {k: c[k] for k in ("op", "cid", "data", "allow", "interop")}, "context": ctx, "path": path,
                "class": cid, "object": dig(c["data"], path), "loss": loss, "origin": how}
+        if c.get("seq") is not None:
+            sq = [x for x in cases if x.get("seq") == c["seq"]]
+            rep["sequence"] = [{k: x[k] for k in ("op", "cid", "data", "allow", "interop", "seq")} for x in sq]
+            rep["step"] = c["meta"]["step"]
         what = "spec-valid %s (%s, %s) %s" % (cid, ctx, how, loss)
         run.violations.append(Violation(what, dict(rep, finding=fid), finding=fid))
     run.coverage["contexts"] = ctxhist
@@ -587,7 +664,13 @@ def replay(payload):
     r = payload["replay"]
     c = r["case"]
     spec = tr_tables.load_spec(common.VERIF)
-    lines, extra = sc.run_impl_cases([dict(c, meta={})])
+    if r.get("sequence"):
+        ls, ex = sc.run_impl_cases([dict(x, meta={}) for x in r["sequence"]])
+        for x, l in zip(r["sequence"], ls):
+            print("  in sequence: %s %s -> %s" % (x["op"], x.get("cid"), l[:100]))
+        lines, extra = [ls[r["step"]]], [ex[r["step"]]]
+    else:
+        lines, extra = sc.run_impl_cases([dict(c, meta={})])
     print("replay %s %s (%s): %s" % (c["op"], c.get("cid"), r.get("context"), lines[0][:300]))
     v = sc.spec_valid_lines([(r["class"], r["object"])])[0]
     print("the object is %s per the frozen specification" % ("VALID" if v == "true" else "not valid"))
